@@ -1,7 +1,10 @@
 package sim
 
 import (
+	"encoding/json"
 	"fmt"
+	"k8s.io/apimachinery/pkg/apis/meta/v1/unstructured"
+	"k8s.io/apimachinery/pkg/runtime/schema"
 	"sort"
 	"strconv"
 	"strings"
@@ -139,8 +142,72 @@ func ReadTraffic(w *World, sc *Scenario) TrafficState {
 				}
 			}
 		}
+	case "custom":
+		// Istio VirtualService written by the Lua script: a route whose destinations include the canary Service
+		vs := GetVirtualService(w, ns)
+		if vs == nil {
+			return ts
+		}
+		https, _, _ := unstructured.NestedSlice(vs.Object, "spec", "http")
+		for _, h := range https {
+			hm, _ := h.(map[string]interface{})
+			routes, _, _ := unstructured.NestedSlice(hm, "route")
+			total, canary := int64(0), int64(0)
+			hasCanary, onlyCanary := false, true
+			for _, r := range routes {
+				rm, _ := r.(map[string]interface{})
+				host, _, _ := unstructured.NestedString(rm, "destination", "host")
+				wgt, found, _ := unstructured.NestedFieldNoCopy(rm, "weight")
+				wv := int64(100)
+				if found {
+					switch n := wgt.(type) {
+					case int64:
+						wv = n
+					case float64:
+						wv = int64(n)
+					}
+				} else if len(routes) > 1 {
+					wv = 0
+				}
+				total += wv
+				if host == AppName+"-canary" {
+					hasCanary = true
+					canary += wv
+				} else {
+					onlyCanary = false
+				}
+			}
+			if !hasCanary {
+				continue
+			}
+			ts.GatewayObjectExists = true
+			if matches, _, _ := unstructured.NestedSlice(hm, "match"); onlyCanary && len(matches) > 0 {
+				for _, m := range matches {
+					b, _ := json.Marshal(m)
+					ts.CanaryMatches = append(ts.CanaryMatches, string(b))
+				}
+				continue
+			}
+			if total > 0 {
+				if share := int(canary * 100 / total); share > ts.CanaryShare {
+					ts.CanaryShare = share
+				}
+			}
+		}
 	}
 	sort.Strings(ts.CanaryMatches)
 	ts.RoutesToCanary = ts.CanaryShare > 0 || len(ts.CanaryMatches) > 0
 	return ts
 }
+
+// GetVirtualService fetches the scenario's VirtualService (custom provider), nil if absent.
+func GetVirtualService(w *World, ns string) *unstructured.Unstructured {
+	for _, o := range w.Store.PeekAll("virtualservices") {
+		if u, ok := o.(*unstructured.Unstructured); ok && u.GetNamespace() == ns && u.GetName() == AppName {
+			return u
+		}
+	}
+	return nil
+}
+
+var _ = schema.GroupVersionKind{}
